@@ -203,6 +203,10 @@ func (in *Interp) evalStmtLS(s Stmt, c *Ctx) Completion {
 	case *ForIn:
 		labels := append(append([]string(nil), in.pending...), "")
 		in.pending = nil
+		if s.Var != "" && s.VarInit != nil && in.Flags&AltForInInitPerIteration == 0 {
+			lhs := GetIdentifierReference(in, c.Lex, s.Var)
+			in.PutValue(lhs, in.GetValue(in.evalExpr(s.VarInit, c)))
+		}
 		ev := in.GetValue(in.evalExpr(s.Obj, c))
 		if IsUndef(ev) || IsNull(ev) {
 			return normalEmpty
@@ -217,6 +221,9 @@ func (in *Interp) evalStmtLS(s Stmt, c *Ctx) Completion {
 			var lhs interface{}
 			if s.Var != "" {
 				lhs = GetIdentifierReference(in, c.Lex, s.Var)
+				if s.VarInit != nil && in.Flags&AltForInInitPerIteration != 0 {
+					in.PutValue(lhs, in.GetValue(in.evalExpr(s.VarInit, c)))
+				}
 			} else {
 				lhs = in.evalExpr(s.LHS, c)
 			}
@@ -339,15 +346,21 @@ func (in *Interp) lsProtect(f func() Completion) (comp Completion, thrown bool, 
 func (in *Interp) lsTry(s *Try, c *Ctx) Completion {
 	b, thrown, exc := in.lsProtect(func() Completion { return in.evalStmt(s.Body, c, nil) })
 	cc := b
+	var ranCatch *Ctx
 	if thrown && s.Catch != nil {
 		catchEnv := NewDeclEnv(c.Lex)
 		catchEnv.CreateMutableBinding(in, s.Param, false)
 		catchEnv.SetMutableBinding(in, s.Param, exc, false)
 		cctx := &Ctx{Lex: catchEnv, Var: c.Var, This: c.This}
+		ranCatch = cctx
 		cc, thrown, exc = in.lsProtect(func() Completion { return in.evalStmt(s.Catch, cctx, nil) })
 	}
 	if s.Finally != nil {
-		f := in.evalStmt(s.Finally, c, nil)
+		fctx := c
+		if ranCatch != nil && in.Flags&AltFinallyInCatchEnv != 0 {
+			fctx = ranCatch
+		}
+		f := in.evalStmt(s.Finally, fctx, nil)
 		if f.Type != CNormal {
 			return f
 		}
